@@ -362,9 +362,7 @@ def run(ctx, only_cases=None):
     ctx.assumptions.append("JSON codec laws of JRV.Backend (render/parse round trip) are assumptions of C14_roundtrip, tested here against the standard-library backend")
     ctx.assumptions.append("whether an id is generated is decided from the supplied rpcid (None or \"\"), and a generated id is any non-empty "
                            "string or number not seen before in the run — its format (uuid4, hex, …) is not part of the property")
-    ctx.assumptions.append("Fault.dump(rpcid=x)/Fault.response(rpcid=x) apply the forced id only when it is truthy (`if rpcid:`): a forced 0 or \"\" "
-                           "keeps the id the Fault was built with.  The verbatim-id clause of the property is read as a statement about "
-                           "dump/dumps(rpcid=…); the forced-id behaviour is modelled (faultDumpWith) and stated (C14_fault_dump_forced), not judged")
+    ctx.assumptions.append("Fault.dump(rpcid=x)/Fault.response(rpcid=x): a forced id other than None (0 and \"\" included) replaces the Fault's own id (fix 06651ba); judged by the monitor")
 
 
 FAULT_FORCED_IDS = [None, 0, "", 5, "forced", 0.0, False, True, [], [1], 1.5]
@@ -405,8 +403,8 @@ def fault_cases(ctx, J, cfg_objs, lines, impl_out):
                 ctx.violate({"fault": [code, msg, data], "rpcid": rid0, "forced": forced, "version": version, "config_version": cfgv},
                             "Fault.response(rpcid=%r, version=%r) %r differs from Fault.dump(...) %r" % (forced, version, t, d1),
                             key="fault-response")
-            # the statement on the forced call: the id that is in force (forced when truthy) and the selected version
-            eff_id = forced if forced else rid0
+            # the statement on the forced call: the id that is in force (forced unless None) and the selected version
+            eff_id = forced if forced is not None else rid0
             case = ((cfgv, True), ("F", [code, msg, data]), None, eff_id, version, True, None)
             m = monitor(case, "ok", d1, set(), via="Fault.dump(rpcid=%r, version=%r)" % (forced, version))
             if m:
@@ -448,7 +446,7 @@ def replay(payload):
         f = J.Fault(c["fault"][0], c["fault"][1], rpcid=c.get("rpcid"), config=cfg, data=c["fault"][2])
         d = f.dump(rpcid=c.get("forced"), version=c.get("version"))
         print("Fault.dump ->", d)
-        eff_id = c.get("forced") if c.get("forced") else c.get("rpcid")
+        eff_id = c.get("forced") if c.get("forced") is not None else c.get("rpcid")
         case = ((c.get("config_version", 2.0), True), ("F", c["fault"]), None, eff_id, c.get("version"), True, None)
         m = monitor(case, "ok", d, set(), via="Fault.dump")
         if m:
